@@ -1,7 +1,312 @@
-(* Properties/C10.v — placeholder until the theorems over Model/Core.v are assembled. *)
-From Coq Require Import ZArith List.
+(* Properties/C10.v — navigation is referentially faithful (model: Model/Core.v).
+   Sense.word()/Sense.synset() return the entity the sense row points to; Word.senses()/Synset.senses() list exactly
+   the sense rows of the entity inside the scope; composite navigation is the composition; equality/hash keys are
+   the database rowids (plus ILI and lexicon for inferred placeholders); translate() goes through the shared ILI.
+   Statements only: every theorem is closed by `exact` of a lemma proved under Proofs/, followed by
+   Print Assumptions.  (Statement texts were printed by Coq from the proved lemmas by harness/mkprops.py and are
+   fixed from then on.) *)
+From Coq Require Import String.
+From Coq Require Import ZArith List Bool.
 Import ListNotations.
-Require Import WnV.Base.Sx WnV.Model.Core.
-Example C10_model_present : run_core (L []) = run_core (L []).
-Proof. reflexivity. Qed.
-Print Assumptions C10_model_present.
+Require Import WnV.Base.Sx WnV.Model.Spec WnV.Model.Tables WnV.Model.Query WnV.Model.Core.
+Require Import WnV.Proofs.CoreLemmas WnV.Proofs.QueryFacts WnV.Proofs.ScopeProofs WnV.Proofs.SearchProofs
+        WnV.Proofs.NavProofs WnV.Proofs.RelGeneric WnV.Proofs.RelProofs WnV.Proofs.RelClosureProofs
+        WnV.Proofs.ExpandProofs WnV.Proofs.FrameProofs WnV.Proofs.CoreNonvacuity.
+Local Open Scope Z_scope.
+
+(* ---- entities returned by queries are the rows they claim to be *)
+Theorem C10_Wordnet_senses_entities :
+  forall (d : db) (w : Wordnet) (form pos : option str) (s : Sense),
+         In s (Wordnet_senses d w form pos) ->
+         exists (sr : sense_row) (e : entry_row) (ss : synset_row), sense_entity d s sr e ss.
+Proof. exact (@Wordnet_senses_entities). Qed.
+Print Assumptions C10_Wordnet_senses_entities.
+
+Theorem C10_Word_senses_entities :
+  forall (d : db) (x : Word) (s : Sense),
+         In s (Word_senses d x) ->
+         exists (sr : sense_row) (e : entry_row) (ss : synset_row),
+           sense_entity d s sr e ss /\ se_entry_rowid sr = wd__id x.
+Proof. exact (@Word_senses_entities). Qed.
+Print Assumptions C10_Word_senses_entities.
+
+Theorem C10_Synset_senses_entities :
+  forall (d : db) (y : Synset) (s : Sense),
+         In s (Synset_senses d y) ->
+         exists (sr : sense_row) (e : entry_row) (ss : synset_row),
+           sense_entity d s sr e ss /\ se_synset_rowid sr = ss__id y.
+Proof. exact (@Synset_senses_entities). Qed.
+Print Assumptions C10_Synset_senses_entities.
+
+(* ---- N1: a sense navigates to the entry / synset its row points to *)
+Theorem C10_Sense_word_is_entry :
+  forall (d : db) (s : Sense) (sr : sense_row) (e : entry_row) (ss : synset_row),
+         sense_entity d s sr e ss ->
+         en_id e <> [] ->
+         In (en_lexicon_rowid e) (Sense_get_declaring_lexicon_ids d s) ->
+         (forall e' : entry_row,
+          In e' (t_entries d) ->
+          en_id e' = en_id e ->
+          In (en_lexicon_rowid e') (Sense_get_declaring_lexicon_ids d s) -> e' = e) ->
+         (exists f : form_row, In f (t_forms d) /\ fm_entry_rowid f = en_rowid e) ->
+         exists x : Word,
+           Sense_word d s = Ok x /\
+           wd__id x = en_rowid e /\
+           wd_id x = en_id e /\
+           wd_pos x = en_pos e /\
+           wd_lexid x = en_lexicon_rowid e /\
+           wd_wordnet x = sn_wordnet s /\
+           wd_forms x <> [] /\
+           (forall qf : q_form,
+            In qf (wd_forms x) ->
+            exists f : form_row,
+              In f (t_forms d) /\ fm_entry_rowid f = en_rowid e /\ qf = form_columns f).
+Proof. exact (@Sense_word_is_entry). Qed.
+Print Assumptions C10_Sense_word_is_entry.
+
+Theorem C10_Sense_synset_is_synset :
+  forall (d : db) (s : Sense) (sr : sense_row) (e : entry_row) (ss : synset_row),
+         sense_entity d s sr e ss ->
+         sy_id ss <> [] ->
+         In (sy_lexicon_rowid ss) (Sense_get_declaring_lexicon_ids d s) ->
+         (forall ss' : synset_row,
+          In ss' (t_synsets d) ->
+          sy_id ss' = sy_id ss ->
+          In (sy_lexicon_rowid ss') (Sense_get_declaring_lexicon_ids d s) -> ss' = ss) ->
+         Sense_synset d s = Ok (mk_Synset (sn_wordnet s) (synset_columns d ss)).
+Proof. exact (@Sense_synset_is_synset). Qed.
+Print Assumptions C10_Sense_synset_is_synset.
+
+(* ---- N2: ... and is listed among the senses of that word / synset; Word.senses / Synset.senses list exactly the sense rows in scope *)
+Theorem C10_sense_in_Word_senses :
+  forall (d : db) (s : Sense) (sr : sense_row) (e : entry_row) (ss : synset_row) (x : Word),
+         sense_entity d s sr e ss ->
+         wd__id x = en_rowid e ->
+         wd_wordnet x = sn_wordnet s ->
+         In (sn_lexid s) (scope d (wd_wordnet x) (wd_lexid x)) -> In s (Word_senses d x).
+Proof. exact (@sense_in_Word_senses). Qed.
+Print Assumptions C10_sense_in_Word_senses.
+
+Theorem C10_sense_in_Synset_senses :
+  forall (d : db) (s : Sense) (sr : sense_row) (e : entry_row) (ss : synset_row) (y : Synset),
+         sense_entity d s sr e ss ->
+         ss__id y = sy_rowid ss ->
+         ss_wordnet y = sn_wordnet s ->
+         In (sn_lexid s) (scope d (ss_wordnet y) (ss_lexid y)) -> In s (Synset_senses d y).
+Proof. exact (@sense_in_Synset_senses). Qed.
+Print Assumptions C10_sense_in_Synset_senses.
+
+Theorem C10_sense_in_Word_senses_nondefault :
+  forall (d : db) (s : Sense) (sr : sense_row) (e : entry_row) (ss : synset_row) (x : Word),
+         sense_entity d s sr e ss ->
+         wd__id x = en_rowid e ->
+         wd_wordnet x = sn_wordnet s ->
+         wn_default_mode (sn_wordnet s) = false ->
+         In (sn_lexid s) (wn_lexicon_ids (sn_wordnet s)) -> In s (Word_senses d x).
+Proof. exact (@sense_in_Word_senses_nondefault). Qed.
+Print Assumptions C10_sense_in_Word_senses_nondefault.
+
+Theorem C10_Word_senses_iff :
+  forall (d : db) (x : Word) (s : Sense),
+         In s (Word_senses d x) <->
+         (exists (sr : sense_row) (e : entry_row) (ss : synset_row),
+            sense_entity d s sr e ss /\
+            se_entry_rowid sr = wd__id x /\
+            sn_wordnet s = wd_wordnet x /\ In (sn_lexid s) (scope d (wd_wordnet x) (wd_lexid x))).
+Proof. exact (@Word_senses_iff). Qed.
+Print Assumptions C10_Word_senses_iff.
+
+Theorem C10_Synset_senses_iff :
+  forall (d : db) (y : Synset) (s : Sense),
+         In s (Synset_senses d y) <->
+         (exists (sr : sense_row) (e : entry_row) (ss : synset_row),
+            sense_entity d s sr e ss /\
+            se_synset_rowid sr = ss__id y /\
+            sn_wordnet s = ss_wordnet y /\ In (sn_lexid s) (scope d (ss_wordnet y) (ss_lexid y))).
+Proof. exact (@Synset_senses_iff). Qed.
+Print Assumptions C10_Synset_senses_iff.
+
+(* ---- N3: composite navigation is the composition of the single steps *)
+Theorem C10_Word_synsets_def :
+  forall (d : db) (x : Word), Word_synsets d x = mapM (Sense_synset d) (Word_senses d x).
+Proof. exact (@Word_synsets_def). Qed.
+Print Assumptions C10_Word_synsets_def.
+
+Theorem C10_Synset_words_def :
+  forall (d : db) (y : Synset), Synset_words d y = mapM (Sense_word d) (Synset_senses d y).
+Proof. exact (@Synset_words_def). Qed.
+Print Assumptions C10_Synset_words_def.
+
+Theorem C10_Synset_lemmas_def :
+  forall (d : db) (y : Synset),
+         Synset_lemmas d y = (do ws <- Synset_words d y; mapM Word_lemma ws).
+Proof. exact (@Synset_lemmas_def). Qed.
+Print Assumptions C10_Synset_lemmas_def.
+
+Theorem C10_Word_lemma_def :
+  forall x : Word,
+         Word_lemma x = match wd_forms x with
+                        | [] => OtherError
+                        | q :: _ => Ok (mk_Form q)
+                        end.
+Proof. exact (@Word_lemma_def). Qed.
+Print Assumptions C10_Word_lemma_def.
+
+Theorem C10_Word_synsets_Ok :
+  forall (d : db) (x : Word) (ys : list Synset),
+         Word_synsets d x = Ok ys <->
+         Forall2 (fun (s : Sense) (y : Synset) => Sense_synset d s = Ok y) (Word_senses d x) ys.
+Proof. exact (@Word_synsets_Ok). Qed.
+Print Assumptions C10_Word_synsets_Ok.
+
+Theorem C10_Synset_words_Ok :
+  forall (d : db) (y : Synset) (xs : list Word),
+         Synset_words d y = Ok xs <->
+         Forall2 (fun (s : Sense) (x : Word) => Sense_word d s = Ok x) (Synset_senses d y) xs.
+Proof. exact (@Synset_words_Ok). Qed.
+Print Assumptions C10_Synset_words_Ok.
+
+Theorem C10_Synset_lemmas_Ok :
+  forall (d : db) (y : Synset) (fs : list Form),
+         Synset_lemmas d y = Ok fs <->
+         (exists xs : list Word,
+            Synset_words d y = Ok xs /\
+            Forall2 (fun (x : Word) (f : Form) => Word_lemma x = Ok f) xs fs).
+Proof. exact (@Synset_lemmas_Ok). Qed.
+Print Assumptions C10_Synset_lemmas_Ok.
+
+Theorem C10_Word_lemma_first_form :
+  forall (x : Word) (q : q_form) (qs : list q_form),
+         wd_forms x = q :: qs -> Word_lemma x = Ok (mk_Form q).
+Proof. exact (@Word_lemma_first_form). Qed.
+Print Assumptions C10_Word_lemma_first_form.
+
+(* ---- N4: equality and hashing keys *)
+Theorem C10_Word_key_eqb_iff :
+  forall a b : Word, Word_key_eqb a b = true <-> wd__id a = wd__id b.
+Proof. exact (@Word_key_eqb_iff). Qed.
+Print Assumptions C10_Word_key_eqb_iff.
+
+Theorem C10_Sense_key_eqb_iff :
+  forall a b : Sense, Sense_key_eqb a b = true <-> sn__id a = sn__id b.
+Proof. exact (@Sense_key_eqb_iff). Qed.
+Print Assumptions C10_Sense_key_eqb_iff.
+
+Theorem C10_Synset_key_eqb_iff :
+  forall a b : Synset,
+         Synset_key_eqb a b = true <->
+         ss_ili a = ss_ili b /\ ss_lexid a = ss_lexid b /\ ss__id a = ss__id b.
+Proof. exact (@Synset_key_eqb_iff). Qed.
+Print Assumptions C10_Synset_key_eqb_iff.
+
+Theorem C10_Synset_key_eqb_rows :
+  forall (d : db) (w1 w2 : Wordnet) (ss1 ss2 : synset_row),
+         unique_keys sy_rowid (t_synsets d) ->
+         In ss1 (t_synsets d) ->
+         In ss2 (t_synsets d) ->
+         Synset_key_eqb (mk_Synset w1 (synset_columns d ss1)) (mk_Synset w2 (synset_columns d ss2)) =
+         true <-> sy_rowid ss1 = sy_rowid ss2.
+Proof. exact (@Synset_key_eqb_rows). Qed.
+Print Assumptions C10_Synset_key_eqb_rows.
+
+Theorem C10_Synset_key_eqb_inferred :
+  forall (i1 : option str) (l1 : Z) (w1 : Wordnet) (i2 : option str) (l2 : Z) (w2 : Wordnet),
+         Synset_key_eqb (Synset_empty _INFERRED_SYNSET i1 l1 w1)
+           (Synset_empty _INFERRED_SYNSET i2 l2 w2) = true <-> i1 = i2 /\ l1 = l2.
+Proof. exact (@Synset_key_eqb_inferred). Qed.
+Print Assumptions C10_Synset_key_eqb_inferred.
+
+Theorem C10_unique_list_spec :
+  forall (T : Type) (eqb : T -> T -> bool) (l : list T),
+         (forall a : T, eqb a a = true) ->
+         nodup_by eqb (unique_list eqb l) /\
+         (forall x : T, In x (unique_list eqb l) -> In x l) /\
+         (forall x : T, In x l -> exists y : T, In y (unique_list eqb l) /\ eqb x y = true).
+Proof. exact (@unique_list_spec). Qed.
+Print Assumptions C10_unique_list_spec.
+
+(* ---- N5: translation goes through the ILI: none without an ILI; otherwise exactly the synsets of the target lexicons with that ILI *)
+Theorem C10_Synset_translate_no_ili :
+  forall (d : db) (y : Synset) (lexicon lang : option str),
+         truthy (ss_ili y) = false -> Synset_translate d y lexicon lang = Ok [].
+Proof. exact (@Synset_translate_no_ili). Qed.
+Print Assumptions C10_Synset_translate_no_ili.
+
+Theorem C10_synset_without_ili_row :
+  forall (d : db) (w : Wordnet) (ss : synset_row),
+         sy_ili_rowid ss = None -> ss_ili (mk_Synset w (synset_columns d ss)) = None.
+Proof. exact (@synset_without_ili_row). Qed.
+Print Assumptions C10_synset_without_ili_row.
+
+Theorem C10_Synset_translate_ili :
+  forall (d : db) (y : Synset) (lexicon lang : option str),
+         truthy (ss_ili y) = true ->
+         Synset_translate d y lexicon lang =
+         (do w' <- Wordnet_init d lexicon lang None true (wn_norm_table (ss_wordnet y)) None true;
+          Ok (Wordnet_synsets d w' None None (ss_ili y))).
+Proof. exact (@Synset_translate_ili). Qed.
+Print Assumptions C10_Synset_translate_ili.
+
+Theorem C10_Synset_translate_sound :
+  forall (d : db) (y : Synset) (lexicon lang : option str) (ts : list Synset) (t : Synset),
+         db_ok d = true ->
+         t_lexicons d <> [] ->
+         Synset_translate d y lexicon lang = Ok ts ->
+         In t ts ->
+         exists w' : Wordnet,
+           Wordnet_init d lexicon lang None true (wn_norm_table (ss_wordnet y)) None true = Ok w' /\
+           ss_wordnet t = w' /\
+           In (ss_lexid t) (wn_lexicon_ids w') /\
+           ss_ili t = ss_ili y /\
+           (exists ss : synset_row, In ss (t_synsets d) /\ t = mk_Synset w' (synset_columns d ss)).
+Proof. exact (@Synset_translate_sound). Qed.
+Print Assumptions C10_Synset_translate_sound.
+
+Theorem C10_Sense_translate_def :
+  forall (d : db) (s : Sense) (lexicon lang : option str),
+         Sense_translate d s lexicon lang =
+         (do y <- Sense_synset d s;
+          do ts <- Synset_translate d y lexicon lang; Ok (flat_map (Synset_senses d) ts)).
+Proof. exact (@Sense_translate_def). Qed.
+Print Assumptions C10_Sense_translate_def.
+
+Theorem C10_Word_translate_def :
+  forall (d : db) (x : Word) (lexicon lang : option str),
+         Word_translate d x lexicon lang =
+         (do pairs <-
+          mapM
+            (fun sense : Sense =>
+             do t_senses <- Sense_translate d sense lexicon lang;
+             do ws <- mapM (Sense_word d) t_senses; Ok (sense, ws)) (Word_senses d x);
+          Ok (dict_of Sense_key_eqb pairs)).
+Proof. exact (@Word_translate_def). Qed.
+Print Assumptions C10_Word_translate_def.
+
+(* ---- navigation stays in scope and keeps the Wordnet (shared with C04) *)
+Theorem C10_Sense_word_scope :
+  forall (d : db) (s : Sense) (x : Word),
+         db_ok d = true ->
+         Sense_word d s = Ok x ->
+         In (wd_lexid x) (scope d (sn_wordnet s) (sn_lexid s)) /\ wd_wordnet x = sn_wordnet s.
+Proof. exact (@Sense_word_scope). Qed.
+Print Assumptions C10_Sense_word_scope.
+
+Theorem C10_Sense_synset_scope :
+  forall (d : db) (s : Sense) (y : Synset),
+         db_ok d = true ->
+         Sense_synset d s = Ok y ->
+         In (ss_lexid y) (scope d (sn_wordnet s) (sn_lexid s)) /\ ss_wordnet y = sn_wordnet s.
+Proof. exact (@Sense_synset_scope). Qed.
+Print Assumptions C10_Sense_synset_scope.
+
+(* ---- non-vacuity *)
+Theorem C10_db_ok_sample_1 :
+  db_ok sample_db_1 = true.
+Proof. exact (@db_ok_sample_1). Qed.
+Print Assumptions C10_db_ok_sample_1.
+
+Theorem C10_db_ok_sample_2 :
+  db_ok sample_db_2 = true.
+Proof. exact (@db_ok_sample_2). Qed.
+Print Assumptions C10_db_ok_sample_2.
+
